@@ -323,3 +323,23 @@ check("C07", "bpfvm",
       "data_end traps. ~0.24e6 runs are repeated in the real kernel.",
       "Out-of-range written values are judged only for untouched bytes; "
       "sw sources widened to 8 bytes are C01's known finding.")
+
+check("C24", "vloop+bussim+explore",
+      "crash-point enumeration: cancellation before every driver step of the "
+      "real sync-group tasks",
+      "The real SyncGroup / FastSyncGroup / ProcessSyncGroup are started on "
+      "the virtual loop over the bus model (fast groups over the simulated "
+      "bpf() program table, process groups with a model child and "
+      "os.pidfd_open / Process as seams) for 5 terminal sets and driven "
+      "through 3 cycles; the task is cancelled before EVERY driver step "
+      "(loop iteration, frame delivery, timer jump: ~60 points per run) on "
+      "the default schedule and with one late frame (timeout path); "
+      "afterwards the bus keeps answering until the task finished. Oracle: "
+      "task ends cancelled (no other exception, nothing unretrieved), every "
+      "terminal that got an OPERATIONAL request gets a SAFE-OPERATIONAL "
+      "request afterwards, all FMMU slots free, program-table entry gone "
+      "(fast), running flag cleared and child exit awaited (process). A "
+      "group kind with zero reachable cancellation points is an INTERNAL "
+      "error (vacuity guard).",
+      "'FMMUs freed' is judged on the master's slot tables. "
+      "subprocess_run is not executed; the child is a model.")
